@@ -50,7 +50,7 @@ static int cmp(const void * a, const void * b, void * p)
 {
     const struct elem * x = a, * y = b;
     int s = (x->key > y->key) - (x->key < y->key);
-    (void)p;
+    h_check_priv(p);
     if (cmpmode == 1) return x->key - y->key;
     if (cmpmode == 2) {
         static const int mag[] = { 1, 1000003, 2, 2147483647, 7, 65536, 3, 255 };
@@ -64,7 +64,7 @@ static int vsign = 1;   /* sign of the visitor's non-zero answer (header vsign);
 static struct cstl_dlist * vis_list, * vis_other;
 static int visit(void * e, void * p)
 {
-    (void)p;
+    h_check_priv(p);
     if (vis_n < 4 * MAXE) vis_log[vis_n] = idof(e);
     vis_n++;
     if (vis_erase == 1) {
@@ -105,11 +105,11 @@ static void dump(void)
         for (c = l->h.p, k = 0; c != &l->h && k < BOUND; c = c->p, k++) printf(" %d", idofnode(c));
         printf(" f");
         vis_n = 0; vis_stop = 0; vis_erase = 0;
-        cstl_dlist_foreach(l, visit, NULL, CSTL_DLIST_FOREACH_DIR_FWD);
+        cstl_dlist_foreach(l, visit, H_COOKIE, CSTL_DLIST_FOREACH_DIR_FWD);
         for (k = 0; k < vis_n && k < 4 * MAXE; k++) printf(" %d", vis_log[k]);
         printf(" b");
         vis_n = 0;
-        cstl_dlist_foreach(l, visit, NULL, CSTL_DLIST_FOREACH_DIR_REV);
+        cstl_dlist_foreach(l, visit, H_COOKIE, CSTL_DLIST_FOREACH_DIR_REV);
         for (k = 0; k < vis_n && k < 4 * MAXE; k++) printf(" %d", vis_log[k]);
     }
     printf("\n");
@@ -164,7 +164,7 @@ static void run_case(const struct h_case * c)
                 if (o < 0 || o >= nlists || o == a) { printf("precond\n"); return; }
                 vis_other = &lists[o];
             }
-            r = cstl_dlist_foreach(&lists[a], visit, NULL, pdir(l, 2));
+            r = cstl_dlist_foreach(&lists[a], visit, H_COOKIE, pdir(l, 2));
             vis_erase = 0;
             printf("ok %d", vsign * r);
             for (k = 0; k < vis_n && k < 4 * MAXE; k++) printf(" %d", vis_log[k]);
@@ -172,7 +172,7 @@ static void run_case(const struct h_case * c)
         else if (h_weq(l, 0, "find")) {
             struct elem probe;
             probe.key = b; probe.id = -7; probe.dn.n = probe.dn.p = JUNK;
-            printf("ok %d", idof(cstl_dlist_find(&lists[a], &probe, cmp, NULL, pdir(l, 3))));
+            printf("ok %d", idof(cstl_dlist_find(&lists[a], &probe, cmp, H_COOKIE, pdir(l, 3))));
         }
         else if (h_weq(l, 0, "swap")) {
             if (b < 0 || b >= nlists || a == b) { printf("precond\n"); return; }
@@ -186,7 +186,7 @@ static void run_case(const struct h_case * c)
             for (k = 0; k < vis_n && k < 4 * MAXE; k++) printf(" %d", vis_log[k]);
         }
         else if (h_weq(l, 0, "reverse")) { cstl_dlist_reverse(&lists[a]); printf("ok "); }
-        else if (h_weq(l, 0, "sort")) { cstl_dlist_sort(&lists[a], cmp, NULL); printf("ok "); }
+        else if (h_weq(l, 0, "sort")) { cstl_dlist_sort(&lists[a], cmp, H_COOKIE); printf("ok "); }
         else if (h_weq(l, 0, "concat")) {
             if (b < 0 || b >= nlists) { printf("precond\n"); return; }
             cstl_dlist_concat(&lists[a], &lists[b]); printf("ok ");
